@@ -674,6 +674,61 @@ theorem calls_prefix_exact (O : Vn → Finset Pn) (facs : Multiset (SFac I D R))
   have := (runG_val (inv_initial O facs live hwf hvars hocc hO) hcalls).2
   simpa [St.val] using this
 
+/-! ## the `modified_` / `dynamic_partial_sum_product` bookkeeping (empty Markov steps)
+
+  These variants file factors under ordinals over ALL plates of `plate_to_step` (`Lc`, `Oc`: "code" keys,
+  kept plates included) and, on HEAD, multiply out `(leaf - new_plates) & prod_vars` (pending branch) and
+  `leaf & prod_vars` (results branch).  In the machine of the ELIMINATED plates `Pe` (kept plates are
+  parameters, like free variables) a factor's key is `Lc ∩ Pe` and a variable's ordinal `Oc v ∩ Pe`. -/
+
+theorem inter_sdiff_inter (Lc Nc Pe : Finset Pn) (h : Nc ⊆ Lc) :
+    (Lc ∩ Pe) \ ((Lc \ Nc) ∩ Pe) = Nc ∩ Pe := by
+  ext p
+  simp only [Finset.mem_sdiff, Finset.mem_inter, not_and]
+  constructor
+  · rintro ⟨⟨hL, hP⟩, h2⟩
+    exact ⟨by_contra fun hN => absurd hP (fun hP => by
+      have := h2 ⟨hL, hN⟩; exact this hP), hP⟩
+  · rintro ⟨hN, hP⟩
+    exact ⟨⟨h hN, hP⟩, fun h3 _ => h3.2 hN⟩
+
+/-- **A step of the modified/dynamic variants (as on HEAD) is a generalized step** of the machine of the
+    eliminated plates: leaf `Lc ∩ Pe`, new key `new_plates ∩ Pe`, the plates multiplied out are exactly
+    `(Lc - new_plates) & prod_vars`.  Hence `calls_exact` covers these variants too. -/
+theorem modified_step_isGStep (Pe : Finset Pn) (Oc : Vn → Finset Pn) (s : St I D R)
+    (Lc : Finset Pn) (group rest : Multiset (SFac I D R)) (W nv : Finset Vn)
+    (hpend : s.pending = group + rest)
+    (gkey : ∀ f ∈ group, f.key = Lc ∩ Pe)
+    (hWl : ∀ w ∈ W, w ∈ s.live ∧ Oc w = Lc)
+    (hdis : ∀ f ∈ rest, Disjoint f.vars W)
+    (hnv1 : ∀ f ∈ group, ∀ v ∈ f.vars, v ∉ W → v ∈ nv)
+    (hnv2 : ∀ v ∈ nv, v ∉ W ∧ ∃ f ∈ group, v ∈ f.vars)
+    (hsub : nv.biUnion Oc ⊆ Lc) :
+    GStep (fun v => Oc v ∩ Pe) s
+      ⟨s.live \ W,
+       newFac (Lc ∩ Pe) ((Lc ∩ Pe) \ ((Lc \ nv.biUnion Oc) ∩ Pe)) W nv group ::ₘ rest, s.results⟩ := by
+  rw [inter_sdiff_inter Lc _ Pe hsub]
+  refine GStep.toPending s (Lc ∩ Pe) (nv.biUnion Oc ∩ Pe) group rest W nv hpend gkey
+    (fun w hw => ⟨(hWl w hw).1, by rw [(hWl w hw).2]⟩) hdis hnv1 hnv2 ?_ ?_
+  · intro p hp
+    obtain ⟨v, hv, hpv⟩ := Finset.mem_biUnion.1 hp
+    exact Finset.mem_inter.2 ⟨Finset.mem_biUnion.2 ⟨v, hv, (Finset.mem_inter.1 hpv).1⟩,
+      (Finset.mem_inter.1 hpv).2⟩
+  · exact Finset.inter_subset_inter_right hsub
+
+/-- **Witness for seeded defect C09_3** (`& prod_vars` dropped in `dynamic_partial_sum_product`, a partial
+    revert of fix f15cd2e): `f(a) = [1,2]`, `g(a,i) = [[1,2],[3,4]]`, eliminate `{a}`, plate `i` KEPT.
+    The mutant multiplies the kept plate out, i.e. performs the step of the machine in which `i` IS
+    eliminated, and returns `Σ_a f a · Π_i g a i = 26`; the property demands `Σ_a f a · g a i` at each
+    kept index: `7` and `10`.  Multiplying out a plate outside `Pe` is therefore not value-preserving —
+    the guard `& prod_vars` in `modified_step_isGStep` is necessary. -/
+theorem C09_3_witness :
+    let f : Bool → ℕ := fun a => if a then 2 else 1
+    let g : Bool → Bool → ℕ := fun a i => if a then (if i then 4 else 3) else (if i then 2 else 1)
+    (∑ a, f a * ∏ i, g a i) = 26 ∧ (∑ a, f a * g a false) = 7 ∧ (∑ a, f a * g a true) = 10 ∧
+      (∑ a, f a * ∏ i, g a i) ≠ ∑ a, f a * g a false ∧ (∑ a, f a * ∏ i, g a i) ≠ ∑ a, f a * g a true := by
+  decide
+
 /-! ## non-vacuity: a concrete finished run -/
 
 section Example
